@@ -108,6 +108,7 @@ where
     trait SpliceFn {
         fn read(&mut self) -> BoxFuture<'_, IoResult<usize>>;
         fn write(&mut self, more: bool) -> BoxFuture<'_, IoResult<usize>>;
+        fn shutdown(&mut self) -> IoResult<()>;
     }
     type BoxSpliceFn = Box<dyn SpliceFn + Send>;
     struct NullFn;
@@ -117,6 +118,9 @@ where
         }
         fn write(&mut self, _more: bool) -> BoxFuture<'_, IoResult<usize>> {
             unreachable!()
+        }
+        fn shutdown(&mut self) -> IoResult<()> {
+            Ok(())
         }
     }
     #[cfg(target_os = "linux")]
@@ -136,6 +140,14 @@ where
             }
             fn write(&mut self, more: bool) -> BoxFuture<'_, IoResult<usize>> {
                 async_splice(&mut self.pipe.0, &self.dfd, self.bufsz, more).boxed()
+            }
+            // relay the end of stream: half-close the destination socket, like the buffered path does
+            fn shutdown(&mut self) -> IoResult<()> {
+                use std::os::unix::prelude::AsRawFd;
+                match unsafe { libc::shutdown(self.dfd.as_raw_fd(), libc::SHUT_WR) } {
+                    0 => Ok(()),
+                    _ => Err(std::io::Error::last_os_error()),
+                }
             }
         }
 
@@ -180,7 +192,15 @@ where
             ret = async {pipe_fn.read().await}, if have_rawfd => {
                 let len = ret.with_context(|| format!("pipe_read from {}", src.name))?;
                 if len > 0 {
-                    pipe_fn.write(len >= params.buffer_size).await.with_context(|| format!("pipe_write to {}", dst.name))?;
+                    // the destination may take only part of what is in the pipe: keep writing until the pipe is empty
+                    let mut left = len;
+                    while left > 0 {
+                        let n = pipe_fn.write(len >= params.buffer_size).await.with_context(|| format!("pipe_write to {}", dst.name))?;
+                        if n == 0 {
+                            return Err(err_msg(format!("pipe_write to {}: destination closed", dst.name)));
+                        }
+                        left = left.saturating_sub(n);
+                    }
                     stat.incr_sent_bytes(len);
                     #[cfg(feature = "metrics")]
                     counter.inc_by(len as u64);
@@ -204,6 +224,12 @@ where
         s.shutdown()
             .await
             .with_context(|| format!("shutdown frame {})", dst.name))?;
+    }
+
+    if have_rawfd {
+        pipe_fn
+            .shutdown()
+            .with_context(|| format!("shutdown {})", dst.name))?;
     }
 
     Ok(())
